@@ -10,8 +10,33 @@
   decodable frame and continues after it, waits (stops) when the header or the declared length is
   not complete yet, and otherwise advances one byte.  Everything is proved for every codec that
   honours the frame interface (`LawfulCodec`), and instantiated for the serial codec.
+
+  Accepted reading of the statement — "modulo awaited bytes".  The property text says the scan
+  "accepts a complete valid frame and continues after it, and otherwise advances one byte", and that
+  "a valid frame that follows line noise or a cut-off frame is not lost".  The frames delivered are a
+  function of the bytes received SO FAR, and a length-prefixed stream forces one more case: at a start
+  byte whose header decodes and declares `flen` bytes of which fewer have arrived, no receiver can tell
+  a frame in transit from noise that looks like a header, so `scan` (like the code) WAITS there.  What
+  is proved about that wait (section "modulo awaited bytes" below):
+    * `scan_resume`, `delivered_monotone`: `scan (d ++ e) = scan d ++ scan (scanRest d ++ e)` — nothing
+      delivered is ever retracted, and the only state that carries over is `scanRest d`, the candidate
+      being waited on, a suffix of `d` (`rest_is_waiting_suffix`);
+    * `stalled_until`: until the declared length has arrived nothing further is delivered (e.g.
+      `55 28 00 02 aa bb` + three valid frames delivers nothing while fewer than 0x28 bytes are in;
+      `55 ff ff 07` + 100 valid frames delivers none of them while fewer than 65535 bytes are in);
+    * `delivery_delay_bounded`: as soon as the declared length has arrived the scan gets past the
+      candidate — it delivers the window if it decodes, and otherwise advances ONE byte, so every byte
+      behind the bogus start byte is examined again.  A bogus header therefore delays delivery by at
+      most its declared length (`serial_delivery_delay`: 65535 bytes at the very most for the serial
+      codec; `serial_rest_lt`: never more than 65534 bytes are held back) and loses nothing:
+    * `valid_frame_not_lost`: a valid frame `f` anywhere in a stream, `pre ++ f ++ rest`, is delivered,
+      right after the frames of `pre`, provided the candidates inside what the scan of `pre` was still
+      waiting on (`scanRest pre`, a suffix of `pre`; empty in the common case: `valid_frame_after_consumed`)
+      are each covered by the stream and rejected.  Both provisos are necessary: an uncovered candidate
+      is `stalled_until`, and a window that decodes IS a frame (and then swallows the start of `f`).
 -/
 import NxsModel.Gen.Comm
+import NxsModel.Route
 import NxsModel.Lemmas.ReasmRun
 import NxsModel.Lemmas.SerialLawful
 namespace Nxs.C03
@@ -168,6 +193,112 @@ theorem created_delivered (c : Codec) (hc : LawfulCodec c) (fid : Nat) (p f nois
   obtain ⟨h1, h2⟩ := hc.frameCreate_decode fid p f hcr hid
   exact resync c hc noise f rest _ h1 h2 hn
 
+/-! ### modulo awaited bytes: resumption, bounded delay, nothing lost -/
+
+/-- resumption: the frames delivered for `d ++ e` are the frames delivered for `d` followed by the scan
+    of (what the scan of `d` was still waiting on) ++ `e` -/
+theorem scan_resume (c : Codec) (hc : LawfulCodec c) (d e : Bytes) :
+    Reasm.scan c (d ++ e) = Reasm.scan c d ++ Reasm.scan c (Reasm.scanRest c d ++ e) :=
+  Reasm.scan_resume hc d e
+
+/-- what is delivered is never retracted: receiving more bytes only appends frames -/
+theorem delivered_monotone (c : Codec) (hc : LawfulCodec c) (d e : Bytes) :
+    ∃ more, Reasm.scan c (d ++ e) = Reasm.scan c d ++ more :=
+  ⟨_, Reasm.scan_resume hc d e⟩
+
+/-- the state carried over is a suffix of the received bytes on which a receiver can only wait: empty,
+    or a start byte followed by less than a header, or by a decodable header that declares more bytes
+    than have arrived -/
+theorem rest_is_waiting_suffix (c : Codec) (hc : LawfulCodec c) (d : Bytes) :
+    (∃ k, Reasm.scanRest c d = d.drop k) ∧
+    (Reasm.scanRest c d = [] ∨ ((Reasm.scanRest c d).head? = some c.sof ∧
+      ((Reasm.scanRest c d).length < c.hdrLen ∨
+        ∃ h, c.hdrDecode (Reasm.scanRest c d) = .ok h ∧ (Reasm.scanRest c d).length < h.flen))) :=
+  ⟨Reasm.scanRest_suffix hc d, Reasm.scanRest_waiting hc d⟩
+
+/-- the same for the receive machine: a script of reads continued by further reads -/
+theorem run_resume (c : Codec) (hc : LawfulCodec c) (cs₁ cs₂ : List Bytes) :
+    Reasm.run c (cs₁ ++ cs₂) =
+      Reasm.run c cs₁ ++ Reasm.scan c (Reasm.scanRest c cs₁.flatten ++ cs₂.flatten) :=
+  Reasm.run_resume hc cs₁ cs₂
+
+/-- the wait: the scan of `d` stopped on a decodable header declaring `h.flen` bytes; as long as fewer
+    than that have arrived (counted from the candidate's start byte) nothing further is delivered,
+    whatever the additional bytes `e` are — valid frames included -/
+theorem stalled_until (c : Codec) (hc : LawfulCodec c) (d e : Bytes) (h : Hdr)
+    (hw : c.hdrDecode (Reasm.scanRest c d) = .ok h)
+    (hl : (Reasm.scanRest c d ++ e).length < h.flen) :
+    Reasm.scan c (d ++ e) = Reasm.scan c d := by
+  have hlen := Reasm.hdrDecode_ok_length hc hw
+  rw [Reasm.scan_resume hc d e,
+    Reasm.scan_wait hc _ h (by rw [Reasm.hdrDecode_append hc _ hlen]; exact hw) hl, List.append_nil]
+
+/-- the delay is bounded by the declared length: the scan of `d` stopped on a decodable header
+    declaring `h.flen` bytes; for EVERY continuation `e` that brings the bytes received from the
+    candidate's start byte on to at least `h.flen`, the scan of `d ++ e` gets past the candidate: the
+    window is delivered if it decodes, and otherwise exactly one byte is dropped and everything behind
+    the bogus start byte is scanned again (so no later frame is skipped) -/
+theorem delivery_delay_bounded (c : Codec) (hc : LawfulCodec c) (d e : Bytes) (h : Hdr)
+    (hw : c.hdrDecode (Reasm.scanRest c d) = .ok h)
+    (hl : h.flen ≤ (Reasm.scanRest c d ++ e).length) :
+    Reasm.scan c (d ++ e) = Reasm.scan c d ++
+      (match c.frameDecode ((Reasm.scanRest c d ++ e).take h.flen) with
+       | .ok fr => fr :: Reasm.scan c ((Reasm.scanRest c d ++ e).drop h.flen)
+       | .error _ => Reasm.scan c ((Reasm.scanRest c d ++ e).drop 1)) := by
+  have hlen := Reasm.hdrDecode_ok_length hc hw
+  have hw' : c.hdrDecode (Reasm.scanRest c d ++ e) = .ok h := by
+    rw [Reasm.hdrDecode_append hc _ hlen]; exact hw
+  rw [Reasm.scan_resume hc d e]
+  congr 1
+  cases hfd : c.frameDecode ((Reasm.scanRest c d ++ e).take h.flen) with
+  | ok fr => exact Reasm.scan_frame hc _ h fr hw' hl hfd
+  | error er => exact Reasm.scan_badframe hc _ h er hw' hl hfd
+
+/-- nothing is lost behind whatever precedes a valid frame: `f` (valid, for `fr`) is delivered right
+    after the frames of `pre`, and scanning continues after it, provided every candidate inside the
+    bytes the scan of `pre` was still waiting on (`scanRest c pre`, a suffix of `pre`) is examined and
+    rejected: its declared length is covered by the stream and its window does not decode.
+    (`resync_rejected` is the special case in which nothing of `pre` is consumed before.) -/
+theorem valid_frame_not_lost (c : Codec) (hc : LawfulCodec c) (pre f rest : Bytes) (fr : Frame)
+    (hf : c.frameDecode f = .ok fr) (hh : ∃ h, c.hdrDecode f = .ok h ∧ h.flen = f.length)
+    (hn : ∀ k, k < (Reasm.scanRest c pre).length →
+      ∀ h, c.hdrDecode ((Reasm.scanRest c pre ++ f ++ rest).drop k) = .ok h →
+        h.flen ≤ (Reasm.scanRest c pre ++ f ++ rest).length - k ∧
+          ∀ fr', c.frameDecode (((Reasm.scanRest c pre ++ f ++ rest).drop k).take h.flen) ≠ .ok fr') :
+    Reasm.scan c (pre ++ f ++ rest) = Reasm.scan c pre ++ fr :: Reasm.scan c rest := by
+  rw [List.append_assoc, Reasm.scan_resume hc pre (f ++ rest), ← List.append_assoc,
+    resync_rejected c hc (Reasm.scanRest c pre) f rest fr hf hh hn]
+
+/-- the common case: the scan of what precedes the frame is not waiting on anything -/
+theorem valid_frame_after_consumed (c : Codec) (hc : LawfulCodec c) (pre f rest : Bytes) (fr : Frame)
+    (hf : c.frameDecode f = .ok fr) (hh : ∃ h, c.hdrDecode f = .ok h ∧ h.flen = f.length)
+    (hpre : Reasm.scanRest c pre = []) :
+    Reasm.scan c (pre ++ f ++ rest) = Reasm.scan c pre ++ fr :: Reasm.scan c rest := by
+  apply valid_frame_not_lost c hc pre f rest fr hf hh
+  intro k hk
+  rw [hpre] at hk
+  simp at hk
+
+/-! ### routing of the delivered frames (`_recv_thread`, with C08 `route_fifo`) -/
+
+/-- the two client queues after the receive thread processed the reads `chunks`: the stream queue holds
+    the STREAM frames of the scan in order, the response queue the other frames in order minus the ACK
+    frames that arrived while no device was known, and together they hold — up to the interleaving of
+    the two queues — exactly `run`'s frames minus those dropped ACKs: nothing invented, lost or
+    duplicated between reassembly and the queues -/
+theorem routed_queues (c : Codec) (hc : LawfulCodec c) (hasDev : Bool) (chunks : List Bytes) :
+    (Route.queues hasDev (Reasm.run c chunks)).2 =
+      (Reasm.scan c chunks.flatten).filter (fun f => decide (f.fid = Gen.Ids.idSTREAM)) ∧
+    (Route.queues hasDev (Reasm.run c chunks)).1 =
+      (Reasm.scan c chunks.flatten).filter
+        (fun f => !decide (f.fid = Gen.Ids.idSTREAM) && !(!hasDev && decide (f.fid = Gen.Ids.idACK))) ∧
+    ((Route.queues hasDev (Reasm.run c chunks)).1 ++ (Route.queues hasDev (Reasm.run c chunks)).2).Perm
+      ((Reasm.run c chunks).filter (fun f => !(!hasDev && decide (f.fid = Gen.Ids.idACK)))) := by
+  obtain ⟨h2, h1⟩ := Reasm.queues_eq_filter hasDev (Reasm.run c chunks)
+  refine ⟨?_, ?_, Reasm.queues_perm hasDev _⟩
+  · rw [h2, run_eq_scan c hc]
+  · rw [h1, run_eq_scan c hc]; rfl
+
 /-! ### the serial codec -/
 
 theorem serial_run_eq_scan (chunks : List Bytes) :
@@ -208,7 +339,107 @@ theorem serial_resync_rejected (junk f rest : Bytes) (fr : Frame)
     Reasm.scan Serial.codec (junk ++ f ++ rest) = fr :: Reasm.scan Serial.codec rest :=
   resync_rejected _ Serial.codec_lawful junk f rest fr hf hh hn
 
+/-- the serial length field is 16 bit: no header declares more than 65535 bytes -/
+theorem serial_hdr_flen_le (d : Bytes) (h : Hdr) (hd : Serial.hdrDecode d = .ok h) : h.flen ≤ 65535 := by
+  match d with
+  | [] | [_] | [_, _] | [_, _, _] =>
+    rw [Serial.hdrDecode_short _ (by simp)] at hd; cases hd
+  | a :: b :: c :: e :: rest =>
+    rw [Serial.hdrDecode_cons] at hd
+    by_cases ha : a ≠ 0x55
+    · rw [if_pos ha] at hd; cases hd
+    · rw [if_neg ha] at hd
+      by_cases he : ¬ e.toNat ≤ 8
+      · rw [if_pos he] at hd; cases hd
+      · rw [if_neg he] at hd
+        cases hd
+        have := b.isLt; have := c.isLt
+        show b.toNat + 256 * c.toNat ≤ 65535
+        omega
+
+/-- the serial receiver never holds back more than 65534 bytes -/
+theorem serial_rest_lt (d : Bytes) : (Reasm.scanRest Serial.codec d).length < 65535 := by
+  rcases Reasm.scanRest_waiting Serial.codec_lawful d with h | ⟨_, h | ⟨h, hd, hl⟩⟩
+  · rw [h]; simp
+  · have : Serial.codec.hdrLen = 4 := rfl
+    omega
+  · have := serial_hdr_flen_le _ h hd
+    omega
+
+/-- quantitative form for the serial codec: whatever header the scan of `d` is waiting on, once 65535
+    bytes have arrived counted from its start byte (in particular after any 65535 further bytes) the
+    scan is past it — the window delivered if it decodes, one byte dropped otherwise -/
+theorem serial_delivery_delay (d e : Bytes) (h : Hdr)
+    (hw : Serial.hdrDecode (Reasm.scanRest Serial.codec d) = .ok h)
+    (hl : 65535 ≤ (Reasm.scanRest Serial.codec d ++ e).length) :
+    Reasm.scan Serial.codec (d ++ e) = Reasm.scan Serial.codec d ++
+      (match Serial.frameDecode ((Reasm.scanRest Serial.codec d ++ e).take h.flen) with
+       | .ok fr => fr :: Reasm.scan Serial.codec ((Reasm.scanRest Serial.codec d ++ e).drop h.flen)
+       | .error _ => Reasm.scan Serial.codec ((Reasm.scanRest Serial.codec d ++ e).drop 1)) :=
+  delivery_delay_bounded _ Serial.codec_lawful d e h hw (by have := serial_hdr_flen_le _ h hw; omega)
+
+theorem serial_valid_frame_not_lost (pre f rest : Bytes) (fr : Frame)
+    (hf : Serial.frameDecode f = .ok fr) (hh : ∃ h, Serial.hdrDecode f = .ok h ∧ h.flen = f.length)
+    (hn : ∀ k, k < (Reasm.scanRest Serial.codec pre).length →
+      ∀ h, Serial.hdrDecode ((Reasm.scanRest Serial.codec pre ++ f ++ rest).drop k) = .ok h →
+        h.flen ≤ (Reasm.scanRest Serial.codec pre ++ f ++ rest).length - k ∧
+          ∀ fr', Serial.frameDecode (((Reasm.scanRest Serial.codec pre ++ f ++ rest).drop k).take h.flen) ≠ .ok fr') :
+    Reasm.scan Serial.codec (pre ++ f ++ rest) =
+      Reasm.scan Serial.codec pre ++ fr :: Reasm.scan Serial.codec rest :=
+  valid_frame_not_lost _ Serial.codec_lawful pre f rest fr hf hh hn
+
 /-! ### non-vacuity -/
+
+/-- the valid 7-byte frame used in the examples below -/
+def exFrame : Bytes := [0x55, 0x07, 0x00, 0x05, 0x01, 0x88, 0x9c]
+
+/-- `55 28 00 02 aa bb` (a header that decodes: id 2, declared length 0x28 = 40) followed by three valid
+    frames, 27 bytes in all: nothing is delivered, the scan waits on the whole string
+    (hypotheses of `stalled_until` with `d` = these bytes, `e = []`) … -/
+def exBogus40 : Bytes := [0x55, 0x28, 0x00, 0x02, 0xaa, 0xbb] ++ exFrame ++ exFrame ++ exFrame
+
+example : Reasm.scan Serial.codec exBogus40 = [] ∧ Reasm.scanRest Serial.codec exBogus40 = exBogus40 ∧
+    Serial.hdrDecode (Reasm.scanRest Serial.codec exBogus40) = .ok ⟨2, 40⟩ ∧
+    (Reasm.scanRest Serial.codec exBogus40 ++ []).length < 40 := by decide +kernel
+
+/-- … and once 40 bytes are in (two more frames: 41 bytes; hypotheses of `delivery_delay_bounded` and of
+    `valid_frame_not_lost` hold) the window is rejected, one byte is dropped, and all five frames behind
+    the bogus header are delivered: none was lost, they were delayed by 14 bytes -/
+example : 40 ≤ (Reasm.scanRest Serial.codec exBogus40 ++ (exFrame ++ exFrame)).length ∧
+    Reasm.scan Serial.codec (exBogus40 ++ (exFrame ++ exFrame)) =
+      [⟨5, [0x01]⟩, ⟨5, [0x01]⟩, ⟨5, [0x01]⟩, ⟨5, [0x01]⟩, ⟨5, [0x01]⟩] := by decide +kernel
+
+/-- the same through the receive machine, byte by byte with idle reads -/
+example : Reasm.run Serial.codec ((exBogus40 ++ exFrame ++ exFrame).map (fun b => [b]) ++ [[]]) =
+    [⟨5, [0x01]⟩, ⟨5, [0x01]⟩, ⟨5, [0x01]⟩, ⟨5, [0x01]⟩, ⟨5, [0x01]⟩] := by decide +kernel
+
+/-- `55 ff ff 07` (decodes: id 7, declared length 65535) followed by 100 valid frames (704 bytes):
+    none of them is delivered yet, the scan waits on the whole string … -/
+def exBogus65535 : Bytes := [0x55, 0xff, 0xff, 0x07] ++ (List.replicate 100 exFrame).flatten
+
+example : Reasm.scan Serial.codec exBogus65535 = [] ∧
+    Reasm.scanRest Serial.codec exBogus65535 = exBogus65535 ∧
+    Serial.hdrDecode (Reasm.scanRest Serial.codec exBogus65535) = .ok ⟨7, 65535⟩ ∧
+    exBogus65535.length = 704 := by decide +kernel
+
+/-- hypotheses of `valid_frame_not_lost` / `valid_frame_after_consumed`: noise, a frame with a bad CRC and
+    a valid frame in front — the scan of that prefix consumed everything (`scanRest = []`) and delivered
+    the valid one; a cut-off frame in front — the scan waits on it (`scanRest` = the cut-off frame), and
+    its one candidate is covered by `exFrame ++ exFrame` and rejected -/
+example : Reasm.scanRest Serial.codec
+    ([0x00, 0x55, 0x13, 0xaa] ++ [0x55, 0x07, 0x00, 0x05, 0x01, 0x88, 0x9d] ++ exFrame) = [] ∧
+    Reasm.scan Serial.codec ([0x00, 0x55, 0x13, 0xaa] ++ [0x55, 0x07, 0x00, 0x05, 0x01, 0x88, 0x9d] ++ exFrame) =
+      [⟨5, [0x01]⟩] := by decide +kernel
+
+example : Reasm.scanRest Serial.codec (exFrame ++ [0x55, 0x0a, 0x00, 0x04, 0x00]) = [0x55, 0x0a, 0x00, 0x04, 0x00] ∧
+    Reasm.scan Serial.codec (exFrame ++ [0x55, 0x0a, 0x00, 0x04, 0x00] ++ exFrame ++ exFrame) =
+      [⟨5, [0x01]⟩, ⟨5, [0x01]⟩, ⟨5, [0x01]⟩] := by decide +kernel
+
+/-- routing: with no device known the ACK is dropped, the STREAM frame goes to the stream queue -/
+example : Route.queues false (Reasm.run Serial.codec
+    [[0x55, 0x07, 0x00, 0x01, 0x00, 0x54, 0x79], [0x55, 0x0a, 0x00, 0x04, 0x00, 0x00, 0x00, 0x00, 0xf9, 0x92], exFrame]) =
+    ([⟨5, [0x01]⟩], [⟨1, [0x00]⟩]) := by decide +kernel
+
 
 /-- noise + two frames, the start byte of the first frame arriving as the last of a 4-byte read
     (the input of the historical defect F2): both frames are delivered, by the machine and by the scan -/
